@@ -245,7 +245,9 @@ def run_c19(goit, sbase, seed, tier, model_ok, stats):
                     if qn == "parse_head" and m_ok:
                         # a readable HEAD naming a branch whose commit cannot be loaded is still an error
                         name = bytes.fromhex(a.split(" ")[1]) if a.split(" ")[1] != "-" else b""
-                        m_ok = (name not in snap.refs) or name in (b"main", b"dev")
+                        # a name with a NUL byte cannot be a file name: stat fails with EINVAL, which goit
+                        # (rightly) does not take for "branch does not exist yet"
+                        m_ok = b"\x00" not in name and ((name not in snap.refs) or name in (b"main", b"dev"))
                     if qn == "parse_ref" and m_ok:
                         hid = a.split(" ")[1]
                         cid = bytes.fromhex(hid) if hid != "-" else b""
